@@ -651,6 +651,15 @@ fn c12(tier: &str, thorough: bool) -> i32 {
                 continue;
             }
         };
+        for (name, max_buf, steps) in crate::e4::readonly_workloads_no_retry() {
+            let case = crate::e4::FaultCase { no_retry: true, generated: false, with_interrupted: true, workload: name.clone(), version: v, max_buf, steps, plan: vec![], kinds: vec![CallKind::Read, CallKind::Seek], read_only: true };
+            let st = crate::e4::explore(ctx, &case, Some(&base), &[CallKind::Read, CallKind::Seek], crate::e4::Pairs::None);
+            ctx.note(format!("v{} {} (failed calls not retried): fault positions={} runs={} underlying calls executed={} faults delivered={}", v, name, st.positions, st.runs, st.calls, st.faults_delivered));
+            runs += st.runs;
+            calls += st.calls;
+            ctx.add("fault_positions", st.positions);
+            ctx.add("faults_delivered", st.faults_delivered);
+        }
         for (name, max_buf, steps) in crate::e4::readonly_workloads() {
             let case = crate::e4::FaultCase { no_retry: false, generated: false, with_interrupted: true, workload: name.clone(), version: v, max_buf, steps, plan: vec![], kinds: vec![CallKind::Read, CallKind::Seek], read_only: true };
             // pairs: both faults in the stream-read phase always; including the open phase for V3 in thorough
@@ -809,7 +818,7 @@ fn c14(tier: &str, thorough: bool) -> i32 {
     use crate::e6::{explore_config, image_for, Policy, ROp, SchedCase, WOp, ALL_ROPS, ALL_WOPS};
     let ctx = leak(Ctx::new("C14", tier, level_mc(), "e6", &["deadlock", "window"]));
     crate::watch::start(ctx, std::time::Duration::from_secs(60));
-    ctx.assume("scheduling points at every acquisition request of the crate's single RwLock (cfg(cfb_verif) shim) are sufficient: all shared state is behind that lock");
+    ctx.assume("scheduling points at every acquisition request (blocking or not) of every RwLock of the crate (cfg(cfb_verif) shim; the unchanged crate has one) are sufficient: all shared state is behind those locks; each lock has its own model, keyed by its address");
     ctx.assume("lock priority is explored under two policies: reader-preferring, and writer-preferring (a waiting writer blocks new readers, as std's futex RwLock on Linux does)");
     ctx.set_rule("for every driver configuration (writer op sequence x reader op assignment x lock policy x version) all schedules are explored by depth-first search over choice sequences with an iterated preemption bound (unbounded where it completes within the cap); oracles: no deadlock (no enabled thread while one is unfinished), no panic, every reader result equals the sequential result after some whole number of writer handle calls inside the call's window");
     let mut schedules = 0u64;
@@ -844,6 +853,10 @@ fn c14(tier: &str, thorough: bool) -> i32 {
                 rsets.push(vec![vec![a, b]]);
                 rsets.push(vec![vec![a], vec![b]]);
             }
+            // a thread that repeats a lookup next to a thread that looks something else up (memoised lookups,
+            // lock-order inversions between a cache lock and the allocator lock need three threads)
+            rsets.push(vec![vec![ROp::Entry, ROp::Entry], vec![ROp::Exists]]);
+            rsets.push(vec![vec![ROp::IsStream, ROp::IsStream], vec![ROp::IsStorage, ROp::Entry]]);
             if thorough {
                 for (i, a) in ALL_ROPS.iter().enumerate() {
                     for b in &ALL_ROPS[i..] {
